@@ -89,7 +89,13 @@ Inductive event :=
 Definition fail_is (fail : option (N * N)) (idx stage : N) : bool :=
   match fail with Some (i, s) => (i =? idx) && (s =? stage) | None => false end.
 
-(* produce_block; idx = number of producer calls made before in this operation.
+(* production_timeout of the harness configuration, and the delay of a slow producer *)
+Definition production_timeout_ms : Z := 20000%Z.
+Definition slow_producer_ms : Z := 1500%Z.
+
+(* produce_block; idx = number of producer calls made before in this operation; stages of the
+   failure script: 0 producer error, 1 seal error, 2 commit error, 3 the producer does not answer
+   within production_timeout, 4 the producer answers after slow_producer_ms (no failure).
    Returns (state, succeeded, producer called, events) *)
 Definition produce_block (st : mstate) (signer : bool) (h time src : N) (deadline : Z)
            (fail : option (N * N)) (idx : N) : mstate * bool * bool * list event :=
@@ -99,8 +105,10 @@ Definition produce_block (st : mstate) (signer : bool) (h time src : N) (deadlin
   else
     let e1 := EProduce h time src deadline (now_i st) (last_height st) in
     if fail_is fail idx 0 then (st, false, true, [e1])
+    else if fail_is fail idx 3 then (set_now st (now_i st + production_timeout_ms)%Z, false, true, [e1])
     else
-      let st1 := set_now st (Z.max (now_i st) deadline) in       (* sleep_until(deadline) *)
+      let st0 := if fail_is fail idx 4 then set_now st (now_i st + slow_producer_ms)%Z else st in
+      let st1 := set_now st0 (Z.max (now_i st0) deadline) in       (* sleep_until(deadline) *)
       if fail_is fail idx 1 then (st1, false, true, [e1; ESeal h])
       else
         let e3 := ECommit h time true (last_height st) in
@@ -109,6 +117,23 @@ Definition produce_block (st : mstate) (signer : bool) (h time src : N) (deadlin
           let c := match trig st with TOpen _ => Z.max deadline created | _ => created end in
           (set_db (upd st1 h time c) (db_up (db st1) h time), true, true,
            [e1; ESeal h; e3; EImported h time true (now_i st1)]).
+
+(* produce_predefined_block: the block stored for the next height (time t) is executed, sealed
+   and committed; no timestamp check, no deadline; source code 2 in the produce event *)
+Definition produce_predefined (st : mstate) (signer : bool) (t : N) (fail : option (N * N))
+  : mstate * bool * list event :=
+  let created := now_i st in
+  let h := last_height st + 1 in
+  if negb signer then (st, false, [])
+  else
+    let e1 := EProduce h t 2 (now_i st) (now_i st) (last_height st) in
+    if fail_is fail 0 0 then (st, false, [e1])
+    else if fail_is fail 0 1 then (st, false, [e1; ESeal h])
+    else
+      let e3 := ECommit h t true (last_height st) in
+      if fail_is fail 0 2 then (st, false, [e1; ESeal h; e3])
+      else (set_db (upd st h t created) (db_up (db st) h t), true,
+            [e1; ESeal h; e3; EImported h t true (now_i st)]).
 
 Definition next_height (st : mstate) : N := last_height st + 1.
 
@@ -217,17 +242,25 @@ Definition try_to_produce_block (st : mstate) (clock : N) (signer : bool) (l : l
    synced): the harness gives up after this many milliseconds *)
 Definition big_wait : Z := 100000%Z.
 
-(* one iteration of RunnableTask::run taking the production branch (after ensure_synced) *)
+(* one iteration of RunnableTask::run (after ensure_synced): a predefined block for the next
+   height (pd = its time minus last_timestamp) is produced first and ends the iteration; otherwise
+   the production branch of the trigger is taken *)
 Definition tick (st : mstate) (clock : N) (signer : bool) (l : leader) (fail : option (N * N))
-           (mid : option (N * N)) : mstate * result * list event :=
-  match trig st with
-  | TNever => (set_now st (now_i st + big_wait)%Z, RBlocked, [])
-  | TInstant => try_to_produce_block st clock signer l fail mid (now_i st)
-  | TInterval bt =>
-      let target := (last_created st + ms bt)%Z in
-      let st' := set_now st (Z.max (now_i st) target) in
-      try_to_produce_block st' clock signer l fail mid (now_i st')
-  | TOpen p => try_to_produce_block st clock signer l fail mid (last_created st + ms p)%Z
+           (mid : option (N * N)) (pd : option N) : mstate * result * list event :=
+  match pd with
+  | Some delta =>
+      let '(st', ok, ev) := produce_predefined st signer (last_timestamp st + delta) fail in
+      (st', if ok then RContinue else RErrorContinue, ev)
+  | None =>
+      match trig st with
+      | TNever => (set_now st (now_i st + big_wait)%Z, RBlocked, [])
+      | TInstant => try_to_produce_block st clock signer l fail mid (now_i st)
+      | TInterval bt =>
+          let target := (last_created st + ms bt)%Z in
+          let st' := set_now st (Z.max (now_i st) target) in
+          try_to_produce_block st' clock signer l fail mid (now_i st')
+      | TOpen p => try_to_produce_block st clock signer l fail mid (last_created st + ms p)%Z
+      end
   end.
 
 Definition update_last_block_values (st : mstate) (clock h t : N) : mstate :=
@@ -236,6 +269,7 @@ Definition update_last_block_values (st : mstate) (clock h t : N) : mstate :=
 
 Inductive op :=
 | OTick (clock : N) (signer : bool) (l : leader) (fail : option (N * N)) (mid : option (N * N))
+        (pd : option N)
 | OManual (clock : N) (signer : bool) (start : option N) (m : mode) (fail : option (N * N))
 | OSync (clock delta t : N)            (* update_last_block_values; height = last_height + delta - 1 *)
 | ODb (d : option (N * N))             (* the database content changes silently *)
@@ -243,7 +277,7 @@ Inductive op :=
 
 Definition step (st : mstate) (o : op) : mstate * result * list event :=
   match o with
-  | OTick clock signer l fail mid => tick st clock signer l fail mid
+  | OTick clock signer l fail mid pd => tick st clock signer l fail mid pd
   | OManual _ signer start m fail =>
       let '(st', ok, ev) := produce_manual_blocks st signer start m fail in
       (st', if ok then ROkManual else RErrManual, ev)
@@ -325,19 +359,40 @@ Definition advance_to (s : sync) (t : Z) : sync :=
   | None => s
   end.
 
-(* what the sync task sees of an event of the main task / importer *)
-Definition feed (s : sync) (e : event) : sync :=
+(* What the sync task sees of the events of an operation.  Announcements wait in the block
+   stream until the main task yields, which it only does to let the clock advance (or at the end
+   of the operation); the watermark is a shared atomic and is visible at once.  So an
+   announcement is handled with the watermark as it stands when the clock next moves. *)
+Definition ann := (N * N * bool * Z)%type.       (* height, time, local, instant of the announcement *)
+
+Definition handle_ann (s : sync) (x : ann) : sync :=
+  let '(h, t, local, a) := x in on_block (advance_to s a) a h t local.
+
+Definition flush (s : sync) (q : list ann) : sync := fold_left handle_ann q s.
+
+Definition queue_older (q : list ann) (a : Z) : bool :=
+  match q with
+  | (_, _, _, qa) :: _ => (qa <? a)%Z
+  | [] => false
+  end.
+
+Definition feed (sq : sync * list ann) (e : event) : sync * list ann :=
+  let '(s, q) := sq in
   match e with
-  | EImported h t local a => on_block (advance_to s a) a h t local
-  | EP2p h t a => on_block (advance_to s a) a h t false
-  | EExec h _ _ => sy_water s (N.max (s_water s) h)      (* reconciliation_watermark.fetch_max *)
-  | _ => s
+  | EImported h t local a =>
+      if queue_older q a then (flush s q, [(h, t, local, a)]) else (s, q ++ [(h, t, local, a)])
+  | EP2p h t a =>
+      if queue_older q a then (flush s q, [(h, t, false, a)]) else (s, q ++ [(h, t, false, a)])
+  | EProduce _ _ _ _ a _ => if queue_older q a then (flush s q, []) else (s, q)
+  | EExec h _ _ => (sy_water s (N.max (s_water s) h), q)     (* reconciliation_watermark.fetch_max *)
+  | _ => (s, q)
   end.
 
 Record fstate := { fm : mstate; fs : sync }.
 
 Inductive fop :=
 | FTick (clock : N) (signer : bool) (l : leader) (fail : option (N * N)) (mid : option (N * N))
+        (pd : option N)
 | FMain (o : op)
 | FPeers (n : N)
 | FNet (delta t : N).          (* a block imported by another path, announced on block_stream *)
@@ -349,13 +404,14 @@ Record fres := {
 }.
 
 Definition settle (st : mstate) (s : sync) (evs : list event) : sync :=
-  advance_to (fold_left feed evs s) (now_i st).
+  let '(s1, q) := fold_left feed evs (s, []) in
+  advance_to (flush s1 q) (now_i st).
 
 Definition fstep (f : fstate) (o : fop) : fstate * fres * list event :=
   let st := fm f in
   let s := fs f in
   match o with
-  | FTick clock signer l fail mid =>
+  | FTick clock signer l fail mid pd =>
       (* ensure_synced: wait for the published state to be Synced *)
       let waited :=
         match s_pub s with
@@ -372,7 +428,7 @@ Definition fstep (f : fstate) (o : fop) : fstate * fres * list event :=
           match s_pub s1 with
           | Some (h, t) =>
               let st2 := update_last_block_values st1 clock h t in
-              let '(st3, res, evs) := tick st2 clock signer l fail mid in
+              let '(st3, res, evs) := tick st2 clock signer l fail mid pd in
               ({| fm := st3; fs := settle st3 s1 evs |},
                {| r_ens := Some (true, st2, Some (h, t)); r_res := res |}, evs)
           | None =>   (* unreachable: a fired tick publishes Synced *)
@@ -454,29 +510,43 @@ Definition flatten1 (x : action) : list event :=
   end.
 Definition flatten (xs : list action) : list event := flat_map flatten1 xs.
 
-Fixpoint parse (evs : list event) : option (list action) :=
+(* the first action of a log and the rest of the log *)
+Definition parse1 (evs : list event) : option (action * list event) :=
   match evs with
-  | [] => Some []
-  | ELeader h g :: r => option_map (cons (ALeader h g)) (parse r)
-  | EP2p h t a :: r => option_map (cons (AP2p h t a)) (parse r)
-  | ERelease :: r => option_map (cons ARelease) (parse r)
+  | [] => None
+  | ELeader h g :: r => Some (ALeader h g, r)
+  | EP2p h t a :: r => Some (AP2p h t a, r)
+  | ERelease :: r => Some (ARelease, r)
   | EProduce h t src dl a g :: ESeal h1 :: ECommit h2 t2 sealed g' :: EImported h3 t3 lo a' :: r =>
       if (h =? h1) && (h =? h2) && (t =? t2) && sealed && (h =? h3) && (t =? t3) && lo
-      then option_map (cons (AProduce h t src dl a g g' a' 3)) (parse r) else None
+      then Some (AProduce h t src dl a g g' a' 3, r) else None
   | EProduce h t src dl a g :: ESeal h1 :: ECommit h2 t2 sealed g' :: r =>
       if (h =? h1) && (h =? h2) && (t =? t2) && sealed
-      then option_map (cons (AProduce h t src dl a g g' 0 2)) (parse r) else None
+      then Some (AProduce h t src dl a g g' 0 2, r) else None
   | EProduce h t src dl a g :: ESeal h1 :: r =>
-      if h =? h1 then option_map (cons (AProduce h t src dl a g 0 0 1)) (parse r) else None
-  | EProduce h t src dl a g :: r => option_map (cons (AProduce h t src dl a g 0 0 0)) (parse r)
+      if h =? h1 then Some (AProduce h t src dl a g 0 0 1, r) else None
+  | EProduce h t src dl a g :: r => Some (AProduce h t src dl a g 0 0 0, r)
   | EExec h t g :: EImported h1 t1 lo a :: r =>
-      if (h =? h1) && (t =? t1) && negb lo
-      then option_map (cons (AExec h t g (Some a))) (parse r) else None
-  | EExec h t g :: r => option_map (cons (AExec h t g None)) (parse r)
+      if (h =? h1) && (t =? t1) && negb lo then Some (AExec h t g (Some a), r) else None
+  | EExec h t g :: r => Some (AExec h t g None, r)
   | ESeal _ :: _ => None
   | ECommit _ _ _ _ :: _ => None
   | EImported _ _ _ _ :: _ => None
   end.
+
+Fixpoint parse_n (n : nat) (evs : list event) : option (list action) :=
+  match evs with
+  | [] => Some []
+  | _ => match n with
+         | O => None
+         | S n' => match parse1 evs with
+                   | Some (x, r) => option_map (cons x) (parse_n n' r)
+                   | None => None
+                   end
+         end
+  end.
+
+Definition parse (evs : list event) : option (list action) := parse_n (length evs) evs.
 
 (* what is known while replaying: the production state, the database's latest block, whether
    the DB-height resync adopted a height, and the two finding flags *)
@@ -531,11 +601,13 @@ Definition act (open : bool) (r : dl_rule) (k : kst) (x : action) : option kst :
   match x with
   | AP2p h t _ => Some (k_db k (db_up (kdb k) h t))
   | ALeader h _ => let k' := k_resync k in if h =? kh k' + 1 then Some k' else None
-  | AProduce h t _ dl a _ _ a' stage =>
-      if (h =? kh k + 1) && (kt k <=? t) && dl_okb r dl a
+  | AProduce h t src dl a _ _ a' stage =>
+      (* a predefined block (source 2) has no deadline: dl = call instant *)
+      if (h =? kh k + 1) && (kt k <=? t) && (if src =? 2 then (dl =? a)%Z else dl_okb r dl a)
       then let k1 := k_flag_a1 k (below_db_time k t) in
            if 3 <=? stage
-           then if (a' =? Z.max a dl)%Z then Some (k_import k1 h t (created_of open dl a)) else None
+           then if (Z.max a dl <=? a')%Z
+                then Some (k_import k1 h t (created_of (open && negb (src =? 2)) dl a)) else None
            else Some k1
       else None
   | AExec h t _ imported =>
@@ -617,10 +689,10 @@ Definition replay_okb (open : bool) (r : dl_rule) (batch_ok : bool) (pre post : 
 
 Definition op_okb (pre : mstate) (o : op) (post : mstate) (evs : list event) : N :=
   match o with
-  | OTick _ _ l _ _ =>
-      match trig pre with
-      | TNever => if is_nil_ev evs && same_prod_state pre post && optNN_eqb (db pre) (db post) then 1 else 0
-      | _ => replay_okb (is_open (trig pre)) (tick_rule pre) (leader_batch_okb l) pre post evs
+  | OTick _ _ l _ _ pd =>
+      match trig pre, pd with
+      | TNever, None => if is_nil_ev evs && same_prod_state pre post && optNN_eqb (db pre) (db post) then 1 else 0
+      | _, _ => replay_okb (is_open (trig pre)) (tick_rule pre) (leader_batch_okb l) pre post evs
       end
   | OManual _ _ _ _ _ => replay_okb false DLNow true pre post evs
   | OSync _ d t =>
@@ -634,18 +706,18 @@ Definition op_okb (pre : mstate) (o : op) (post : mstate) (evs : list event) : N
    and the header it published is adopted if higher *)
 Definition fop_okb (pre : mstate) (o : fop) (res : fres) (post : mstate) (evs : list event) : N :=
   match o with
-  | FTick clock signer l fail mid =>
+  | FTick clock signer l fail mid pd =>
       match r_ens res with
       | Some (true, st2, Some (h, t)) =>
           if same_prod_state st2 (update_last_block_values (set_now pre (now_i st2)) clock h t) &&
              optNN_eqb (db pre) (db st2)
-          then op_okb st2 (OTick clock signer l fail mid) post evs else 0
+          then op_okb st2 (OTick clock signer l fail mid pd) post evs else 0
       | Some (false, st1, _) =>
           if is_nil_ev evs && same_prod_state pre st1 && same_prod_state pre post &&
              match r_res res with RBlocked => true | _ => false end then 1 else 0
       | _ => 0
       end
-  | FMain (OTick _ _ _ _ _) => 0
+  | FMain (OTick _ _ _ _ _ _) => 0
   | FMain o' => op_okb pre o' post evs
   | FPeers _ => if is_nil_ev evs && same_prod_state pre post then 1 else 0
   | FNet _ _ => if same_prod_state pre post then 1 else 0
@@ -714,10 +786,10 @@ Definition T_mode (t : T) : option mode :=
 
 Definition T_fop (t : T) : option fop :=
   match t with
-  | L [I 0%Z; c; s; l; f; m] =>
-      match getN c, getB s, T_leader l, T_opt_pair f, T_opt_pair m with
-      | Some c, Some s, Some l, Some f, Some m => Some (FTick c s l f m)
-      | _, _, _, _, _ => None end
+  | L [I 0%Z; c; s; l; f; m; pd] =>
+      match getN c, getB s, T_leader l, T_opt_pair f, T_opt_pair m, getOptN pd with
+      | Some c, Some s, Some l, Some f, Some m, Some pd => Some (FTick c s l f m pd)
+      | _, _, _, _, _, _ => None end
   | L [I 1%Z; c; s; st; m; f] =>
       match getN c, getB s, getOptN st, T_mode m, T_opt_pair f with
       | Some c, Some s, Some st, Some m, Some f => Some (FMain (OManual c s st m f))
